@@ -179,7 +179,7 @@ fn describe_wire(bytes: &[u8]) -> String {
     )
 }
 
-async fn run_case(case: Vec<String>) -> String {
+pub async fn run_case(case: Vec<String>) -> String {
     // id prop role setup(hex extra headers or config) script [seed]
     if case[2] == "reg" {
         return crate::c17reg::run_case(case).await;
@@ -399,7 +399,11 @@ async fn run_case(case: Vec<String>) -> String {
             }
             "raw" => {
                 // arbitrary bytes as a datagram (C02)
-                let bytes = unhex(&a[1]);
+                // the text @@TAG@@ stands for the local tag of the dialog created by `inv`
+                let mut bytes = unhex(&a[1]);
+                if let Some(pos) = bytes.windows(7).position(|w| w == b"@@TAG@@") {
+                    bytes.splice(pos..pos + 7, local_tag.bytes());
+                }
                 inject(&endpoint, &bytes, source, &tp);
             }
             "options" => {
